@@ -178,6 +178,28 @@ Definition dist_scale (D : dmat) (s : S) : dmat :=
 Definition dist_sort_rows (D : dmat) : dmat :=
   mkDmat (dm_cparts D) (map (fun M => mkRankMat (sort_rows (rm_loc M)) (sort_rows (rm_rem M))) (dm_ranks D)).
 
+(* ---- transpose (lines 559-716) ----
+   rank q keeps transpose(A_loc); the transposed remote part of rank d (one row per ghost column
+   of d, entries = (local row of d + row offset of d, adjoint value)) is shipped row by row to
+   the owners of those columns; rank q appends what it receives for its local column c in the
+   order of its send slots, i.e. by increasing sender rank d.  The result is handed to the
+   constructor (new pattern); its column partition is the row partition of A. *)
+Definition dist_transpose (D : dmat) (rparts : list nat) : dmat :=
+  let cparts := dm_cparts D in
+  let nr := length cparts in
+  mkDmat rparts
+    (map (fun q =>
+            let M := nth q (dm_ranks D) dflt_rank in
+            mkRankMat (transpose (rm_loc M))
+              (mkCrs (psum rparts)
+                 (map (fun c =>
+                         flat_map (fun d =>
+                                     map (fun e => (fst e + pbeg rparts d, snd e)%nat)
+                                         (nth (c + pbeg cparts q) (rows (transpose (rm_rem (nth d (dm_ranks D) dflt_rank)))) []))
+                                  (seq 0 nr))
+                      (seq 0 (psize cparts q)))))
+         (seq 0 nr)).
+
 (* ---- remote_rows (lines 718-854): for every ghost column c of A's pattern, in idx order,
    the row c of B as its owner holds it (local entries in global numbering, then remote) ---- *)
 Definition dist_remote_rows (patsA : list cpat) (B : dmat) (r : nat) : list row :=
